@@ -31,31 +31,31 @@ type Guard struct {
 }
 
 type Contract struct {
-	Key      string // function key, see funcKey
-	Pkg      string // package path the contract file belongs to ("" for lib contracts with qualified keys)
-	Props    []string
-	Pure     bool
-	Opaque   bool // pure but body not revealed (uninterpreted)
+	Key            string // function key, see funcKey
+	Pkg            string // package path the contract file belongs to ("" for lib contracts with qualified keys)
+	Props          []string
+	Pure           bool
+	Opaque         bool // pure but body not revealed (uninterpreted)
 	CallPreAssumed bool // requires of callees are assumed (and reported) at the call sites inside this function
-	Trusted  bool // contract assumed, body not verified
-	NoPanic  bool
-	Lemma    bool
-	Arith    string // math | checked | wrap
-	Requires []*Clause
-	Ensures  []*Clause
-	Assumes  []*Clause // assumed at entry, reported as assumptions
-	Loops    map[int]*LoopSpec
-	Guards   []*Guard
-	Assigns  []string
-	HasAssigns bool
-	Reads    []string
-	HasReads bool
-	Preserves    []string
-	HasPreserves bool
-	Decreases *Clause
-	Where    string
-	Notes    []string
-	MustReach []string // cover labels
+	Trusted        bool // contract assumed, body not verified
+	NoPanic        bool
+	Lemma          bool
+	Arith          string // math | checked | wrap
+	Requires       []*Clause
+	Ensures        []*Clause
+	Assumes        []*Clause // assumed at entry, reported as assumptions
+	Loops          map[int]*LoopSpec
+	Guards         []*Guard
+	Assigns        []string
+	HasAssigns     bool
+	Reads          []string
+	HasReads       bool
+	Preserves      []string
+	HasPreserves   bool
+	Decreases      *Clause
+	Where          string
+	Notes          []string
+	MustReach      []string // cover labels
 }
 
 // Ghost map declaration: //@ ghost name(Sort,...) Sort
